@@ -89,6 +89,7 @@ PEER = {
     'pABORT': R.build_pdu({'type': 7, 'source': 2, 'reason': 4}),
     # A-ASSOCIATE-RQ of a peer that supports further protocol versions as well (bit 0 = version 1:
     # PS3.8 9.3.2 "a receiver ... shall only test that bit 0 is set")
+    'pRQv2': R.build_pdu(dict(assoc_rq_tree(), version=0x0002)),      # bit 0 (version 1) NOT set
     'pRQv3': R.build_pdu(dict(assoc_rq_tree(), version=0x0003)),
     'pRQvFFFF': R.build_pdu(dict(assoc_rq_tree(), version=0xFFFF)),
     'pACv8001': R.build_pdu(dict(assoc_ac_tree(), version=0x8001)),
@@ -104,7 +105,7 @@ PEER_KIND = {'pRQ': 'A-ASSOCIATE-RQ', 'pAC': 'A-ASSOCIATE-AC', 'pRJ': 'A-ASSOCIA
 PEER_INFO = {'pDATA': {'completes': True}, 'pPART': {'completes': False},
              'pREST': {'completes': True}, 'pABORT': {'abort': (2, 4)}, 'pRJ': {'rj': (1, 1, 3)},
              'pABORTu': {'abort': (0, 0)}, 'pRJt': {'rj': (2, 3, 1)}}
-PEER_KIND.update({'pRQv3': 'A-ASSOCIATE-RQ', 'pRQvFFFF': 'A-ASSOCIATE-RQ', 'pACv8001': 'A-ASSOCIATE-AC',
+PEER_KIND.update({'pRQv2': 'A-ASSOCIATE-RQ', 'pRQv3': 'A-ASSOCIATE-RQ', 'pRQvFFFF': 'A-ASSOCIATE-RQ', 'pACv8001': 'A-ASSOCIATE-AC',
                   'pABORTu': 'A-ABORT', 'pRJt': 'A-ASSOCIATE-RJ'})
 
 USER_KIND = {'uRQ': 'A-ASSOCIATE-RQ', 'uAC': 'A-ASSOCIATE-AC', 'uRJ': 'A-ASSOCIATE-RJ',
